@@ -38,6 +38,11 @@ NON_ATTRS = ['bogus', 'files', 'changes', 'options', 'subsections', '_level',
              'diff_section', 'content', 'section_name', 'default_options',
              'add_file', 'length', 'my-option', 'Encoding']
 TYPES = {'str': str, 'int': int, 'dict': dict, 'bytes': bytes}
+COMMON_DIFFS = [
+    b'--- a/x\n+++ b/x\n@@ -1,2 +1,3 @@\n ctx\n-old\n+new\n+more\n',
+    b'@@ -1 +1 @@\n-a\n+b\n',
+    b'--- a\r\n+++ b\r\n@@ -0,0 +1,2 @@\r\n+x\r\n+y\r\n',
+]
 
 
 def node_kind(path):
@@ -70,6 +75,9 @@ def valid_value(rng, kind, attr, enc_pool=None):
                            {'k2': None, 'k1': True}]
 
         return md
+    elif rng.chance(0.3):
+        # a few *recurring* real diffs: several files with identical content
+        return {'$bytes': rng.choice(COMMON_DIFFS).hex()}
     else:
         return {'$bytes': gen.gen_diff_bytes(rng, None).hex()}
 
